@@ -2325,3 +2325,149 @@ func fixedVersionExpr(p *Prog, fn *Fn, e ast.Expr) bool {
 	}
 	return false
 }
+
+// publishedHeadsAreTheHeadSet: the heads a view publishes (a snapshot, the JSON form, Heads) are the log's head set —
+// possibly sorted — and nothing a walk produced: the first k entries of a traversal are the k newest entries, not
+// the k heads, as soon as a branch is longer than another.
+func publishedHeadsAreTheHeadSet(c *Ctx, r *Report, rule string) {
+	p := c.P
+	headsF := p.Field("", "IPFSLog", "heads")
+	walkers := map[types.Object]bool{}
+	for _, nm := range []string{"traverse", "values"} {
+		walkers[p.FuncI("", "IPFSLog", nm).Obj] = true
+	}
+	n := 0
+	for _, fn := range p.Fns {
+		if fn.Body == nil || fn.Pkg.PkgPath != p.pkgPath("") || fn.Decl == nil || fn.Decl.Recv == nil {
+			continue
+		}
+		sf := p.SSAFunc(fn)
+		if sf == nil {
+			continue
+		}
+		var vals []ssa.Value
+		var poss []token.Pos
+		allInstrs(sf, false, func(ins ssa.Instruction) {
+			switch x := ins.(type) {
+			case *ssa.Store:
+				if f, fa := fieldOf(x.Addr); f != nil && fa != nil && f.Name() == "Heads" {
+					if nt := namedOf(fa.X.Type()); nt != nil && (nt.Obj().Name() == "Snapshot" || nt.Obj().Name() == "JSONLog") {
+						vals, poss = append(vals, x.Val), append(poss, x.Pos())
+					}
+				}
+			case *ssa.Return:
+				if fn.Decl.Name.Name == "Heads" || fn.Decl.Name.Name == "RawHeads" {
+					for _, rv := range x.Results {
+						vals, poss = append(vals, rv), append(poss, x.Pos())
+					}
+				}
+			}
+		})
+		for i, v := range vals {
+			n++
+			fromHeads, walked := false, ""
+			for x := range backSlice(v, nil) {
+				switch y := x.(type) {
+				case *ssa.UnOp:
+					if y.Op == token.MUL {
+						if f, _ := fieldOf(y.X); f == headsF {
+							fromHeads = true
+						}
+					}
+				case *ssa.Call:
+					if cal := y.Call.StaticCallee(); cal != nil && walkers[cal.Object()] && y.Parent() == sf {
+						walked = cal.Name()
+					}
+				}
+			}
+			r.Check(fromHeads && walked == "", rule, r.Key(rule, fn, "published-heads", fmt.Sprint(i)), poss[i],
+				"the heads published here are the log's head set, and no walk is on their way",
+				fmt.Sprintf("the heads %s publishes come out of %s (or not from the head set at all): the first entries of a walk are the newest entries, not the heads — with branches of unequal length a predecessor of the newest head is listed as a head and a real head is dropped", fn.Name, walked))
+		}
+	}
+	r.Floor(rule, "places where a view publishes the heads", n, 3)
+}
+
+// comparisonsAreStateless: the closures Sort hands to the sorting routine answer from their two arguments and the
+// ordering function alone. A variable that one comparison sets and a later one tests makes the answer depend on
+// which comparisons came before — the output is then no longer sorted by the ordering, and depends on the input
+// order.
+func comparisonsAreStateless(c *Ctx, r *Report, rule string) {
+	p := c.P
+	n := 0
+	for _, fn := range p.Fns {
+		if fn.Body == nil || fn.Pkg.PkgPath != p.pkgPath("entry/sorting") || fn.Decl == nil {
+			continue
+		}
+		fn := fn
+		var lits []*ast.FuncLit
+		ast.Inspect(fn.Body, func(nd ast.Node) bool {
+			if fl, ok := nd.(*ast.FuncLit); ok {
+				lits = append(lits, fl)
+			}
+			return true
+		})
+		if len(lits) == 0 {
+			continue
+		}
+		declaredIn := func(o types.Object, fl *ast.FuncLit) bool {
+			return o.Pos() >= fl.Pos() && o.Pos() <= fl.End()
+		}
+		// variables of the enclosing function that some closure assigns
+		written := map[types.Object]token.Pos{}
+		for _, fl := range lits {
+			ast.Inspect(fl.Body, func(nd ast.Node) bool {
+				if as, ok := nd.(*ast.AssignStmt); ok {
+					for _, l := range as.Lhs {
+						if id, ok := ast.Unparen(l).(*ast.Ident); ok {
+							if o := p.ObjOf(fn, id); o != nil && !declaredIn(o, fl) {
+								if _, isVar := o.(*types.Var); isVar && o.Parent() != o.Pkg().Scope() {
+									written[o] = as.Pos()
+								}
+							}
+						}
+					}
+				}
+				return true
+			})
+		}
+		for _, fl := range lits {
+			n++
+			var bad types.Object
+			var badPos token.Pos
+			ast.Inspect(fl.Body, func(nd ast.Node) bool {
+				var cond ast.Expr
+				switch x := nd.(type) {
+				case *ast.IfStmt:
+					cond = x.Cond
+				case *ast.SwitchStmt:
+					cond = x.Tag
+				case *ast.ForStmt:
+					cond = x.Cond
+				}
+				if cond == nil {
+					return true
+				}
+				ast.Inspect(cond, func(m ast.Node) bool {
+					if id, ok := m.(*ast.Ident); ok {
+						if o := p.ObjOf(fn, id); o != nil {
+							if _, w := written[o]; w && bad == nil {
+								bad, badPos = o, id.Pos()
+							}
+						}
+					}
+					return true
+				})
+				return true
+			})
+			name := ""
+			if bad != nil {
+				name = bad.Name()
+			}
+			r.Check(bad == nil, rule, r.Key(rule, fn, "stateless-comparison", fmt.Sprint(len(lits))), badPosOr(badPos, fl.Pos()),
+				"the closure tests no variable that a comparison sets",
+				fmt.Sprintf("a closure of %s tests %s, which a comparison sets: what one comparison answers depends on the comparisons before it — after the first failing pair the rest of the list is left as it came, so the output is not sorted by the ordering and depends on the input order", fn.Name, name))
+		}
+	}
+	r.Floor(rule, "closures of the sorting package", n, 2)
+}
